@@ -44,6 +44,13 @@ the harness' table-driven encoder only, where it currently FAILS (known finding 
 library writes milliseconds, the published unit is 10 ms; the fix belongs to property C12). -/
 theorem C15_pgn_126993_partial :
     agreesOnFields pair_126993 (layout_126993.filter (·.name != "interval")) = true := by decide +kernel
+/-- On the setter path for intervals up to `MaxHeartbeatInterval` (`pair_126993_e`) the interval parameter IS written
+to the published bits, but as a plain integer: the library has no resolution of 10 (ms per bit) there. This is the
+kernel-checked form of the known finding `C15:126993:interval`. -/
+theorem C15_pgn_126993_interval_mismatch :
+    bitsAgree pair_126993_e ⟨"interval", 0, 16, false, 10, 0, .param "timeInterval_ms"⟩ 0 = true ∧
+    recAgree pair_126993_e ⟨"interval", 0, 16, false, 10, 0, .param "timeInterval_ms"⟩ 0 = false ∧
+    agreesOnFields pair_126993_e (layout_126993.filter (·.name != "interval")) = true := by decide +kernel
 
 /-! data PGNs -/
 theorem C15_pgn_126992 : agreesOnFields pair_126992 layout_126992 = true := by decide +kernel
@@ -61,8 +68,10 @@ theorem C15_pgn_128275 : agreesOnFields pair_128275 layout_128275 = true := by d
 theorem C15_pgn_129025 : agreesOnFields pair_129025 layout_129025 = true := by decide +kernel
 theorem C15_pgn_129026 : agreesOnFields pair_129026 layout_129026 = true := by decide +kernel
 /-- PGN 129029: every field up to the reference-station count; the repeated reference-station record is written in
-a conditional of variable length (harness only). -/
+a conditional of variable length, see the path variant below. -/
 theorem C15_pgn_129029 : agreesOnFields pair_129029 layout_129029 = true := by decide +kernel
+/-- … and on the path with reference stations (`pair_129029_t`) the whole message including the station record -/
+theorem C15_pgn_129029_t : agreesOnFields pair_129029_t (layout_129029 ++ layout_129029_t) = true := by decide +kernel
 theorem C15_pgn_129033 : agreesOnFields pair_129033 layout_129033 = true := by decide +kernel
 theorem C15_pgn_129283 : agreesOnFields pair_129283 layout_129283 = true := by decide +kernel
 /-- PGN 129284 Navigation Data: every field except the ETA date is placed as published … -/
